@@ -20,7 +20,12 @@ impl Prop for Unsol {
         }
     }
     fn floors() -> Vec<(&'static str, u32)> {
-        vec![("unsol_with_events", 80), ("data_series_retried", 10), ("deferred_read", 5), ("unsol_series_timed_out", 15)]
+        vec![
+            ("unsol_with_events", 80),
+            ("data_series_retried", 10),
+            ("deferred_read", 5),
+            ("unsol_series_timed_out", 15),
+        ]
     }
     fn strategy(tier: Tier) -> BoxedStrategy<Case> {
         case_strategy(false, if tier == Tier::Quick { 24 } else { 48 })
